@@ -26,7 +26,10 @@ def build(H, tier, seed):
     T.vc_tape_all(H)
     D.vc_getitem(H, 'Registry')
     D.vc_registry_call(H)
-    M.vc_mv_delegations(H)
+    # MultiVector side of the simulation; __rtruediv__ is left to C16: inside C11's grammar its left operand is a plain number,
+    # for which inverse(x) * number and number * inverse(x) coincide, so its operand order is not C11's clause
+    from contracts.multivector_c import BINARY, UNARY
+    M.vc_mv_delegations(H, methods_binary=[m for m in BINARY if m != '__rtruediv__'], methods_unary=list(UNARY))
 
 
 def standins(tier, seed):
